@@ -406,6 +406,14 @@ type vRow struct {
 	Session   bool        `json:"session,omitempty"`   // restrictions built like paymentSession.RequestRoute
 	Stream    string      `json:"stream,omitempty"`    // "" base | hint | blinded | directed
 	CustomLen int         `json:"customlen"`           // bytes of the destination custom record 70000, -1 none
+
+	// session rows (verif_session_test.go): the user-level hop hints, the
+	// additional edges lnd derived from them (aligned), their total number
+	UserHints    [][]vHopHintJ `json:"userhints,omitempty"`
+	ObsAdd       []vEdgeJ      `json:"obsadd,omitempty"`
+	NObsAdd      int           `json:"nobsadd,omitempty"`
+	SessBad      bool          `json:"sessbad,omitempty"`
+	SearchFinalD uint32        `json:"searchfinald,omitempty"` // final delta findPath was given, if != finald
 }
 
 func (c *vCase) row(ci int, variant string) *vRow {
@@ -1179,7 +1187,7 @@ func TestVerifRoute(t *testing.T) {
 	}
 	// replay of a case of the additional-edge streams only
 	onlyAdd := vEnvInt("VERIF_ONLY_H", -1) >= 0 || vEnvInt("VERIF_ONLY_B", -1) >= 0 ||
-		vEnvInt("VERIF_ONLY_D", -1) >= 0
+		vEnvInt("VERIF_ONLY_D", -1) >= 0 || vEnvInt("VERIF_ONLY_S", -1) >= 0
 	if onlyAdd {
 		ncases = 0
 	}
@@ -1249,6 +1257,10 @@ func TestVerifRoute(t *testing.T) {
 	// additional edges: multi-hop / parallel route hints and blinded payment
 	// paths (verif_blinded_test.go)
 	if (only < 0 && onlyGE < 0 || onlyAdd) && !vAdditionalStream(out) {
+		return
+	}
+	// real entry points: newPaymentSession / RequestRoute (verif_session_test.go)
+	if (only < 0 && onlyGE < 0 || onlyAdd) && !vSessionStream(out) {
 		return
 	}
 	gr := vNewRng(vSeed() ^ 0x6765746564676500)
